@@ -284,6 +284,30 @@ func consumerKey(group, topic string, partition int32) string {
 	return fmt.Sprintf("%s:%s:%d", group, topic, partition)
 }
 
+// maxTopicNameLength is the Kafka limit for topic names.
+const maxTopicNameLength = 249
+
+// ValidTopicName reports whether name is a legal Kafka topic name: 1 to 249
+// characters from [a-zA-Z0-9._-], and neither "." nor "..". Topic names are
+// embedded in S3 object keys, etcd keys and in-memory map keys, so anything
+// outside this set (path separators, dot segments, ':') could make two
+// different topics address the same storage.
+func ValidTopicName(name string) bool {
+	if name == "" || len(name) > maxTopicNameLength || name == "." || name == ".." {
+		return false
+	}
+	for i := 0; i < len(name); i++ {
+		c := name[i]
+		switch {
+		case c >= 'a' && c <= 'z', c >= 'A' && c <= 'Z', c >= '0' && c <= '9':
+		case c == '.', c == '_', c == '-':
+		default:
+			return false
+		}
+	}
+	return true
+}
+
 // CreateTopic implements Store.CreateTopic.
 func (s *InMemoryStore) CreateTopic(ctx context.Context, spec TopicSpec) (*protocol.MetadataTopic, error) {
 	select {
@@ -291,7 +315,7 @@ func (s *InMemoryStore) CreateTopic(ctx context.Context, spec TopicSpec) (*proto
 		return nil, ctx.Err()
 	default:
 	}
-	if spec.Name == "" || spec.NumPartitions <= 0 {
+	if !ValidTopicName(spec.Name) || spec.NumPartitions <= 0 {
 		return nil, ErrInvalidTopic
 	}
 	if spec.ReplicationFactor <= 0 {
